@@ -175,7 +175,10 @@ impl State {
     /// then replace it with a value relative to the global memory ID of the state.
     fn replace_if_global_pointer(&self, mut value: Data) -> Data {
         if let Ok(constant) = value.try_to_offset() {
-            if self.known_global_addresses.contains(&(constant as u64)) {
+            // Only pointer-sized values can represent global addresses.
+            if value.bytesize() == self.stack_id.bytesize()
+                && self.known_global_addresses.contains(&(constant as u64))
+            {
                 // The result is a constant that denotes a pointer to global writeable memory.
                 // Thus we replace it with a value relative the global memory ID.
                 value = Data::from_target(
